@@ -111,6 +111,10 @@ def snapshot(x):
         return x
 
 
+PYVC_ONLY = ("events(", "final(", "pre(", "conforms(", "has_own(")
+notes = []
+
+
 def run(spec):
     sys.path.insert(0, os.path.dirname(os.path.dirname(os.path.abspath(__file__))))
     side = importlib.import_module(spec["sidecar"])
@@ -162,10 +166,12 @@ def run(spec):
         for name, (code, olds, src) in clauses.items():
             e2 = dict(env)
             e2.update(olds)
+            if any(w in src for w in PYVC_ONLY):
+                continue
             try:
                 ok = eval(code, ns, e2)
             except Exception as e:
-                failures.append(f"{name}: raised {type(e).__name__}: {e}   [{src}]")
+                notes.append(f"{name}: not evaluable natively ({type(e).__name__}: {e})   [{src}]")
                 continue
             if not ok:
                 failures.append(f"{name}: false   [{src}]")
@@ -177,6 +183,14 @@ def run(spec):
             before[k] = {f: snapshot(x) for f, x in vars(o).items()}
     fn = resolve_target(spec["target"].split("#")[0], loc)
     import inspect
+    probe = fn
+    try:
+        owner_fn = resolve(spec["target"].split("#")[0].replace("!setter", ""))
+        if inspect.iscoroutinefunction(owner_fn) or inspect.isasyncgenfunction(owner_fn):
+            print("REPLAY not attempted: the target is a coroutine (its environment - event loop, sockets, peers - is not reproduced natively)")
+            return 4, []
+    except Exception:
+        pass
     try:
         sig_names = set(inspect.signature(fn).parameters) if not isinstance(fn, type(lambda: 0)) or fn.__name__ != "<lambda>" else None
     except (TypeError, ValueError):
@@ -205,12 +219,15 @@ def run(spec):
 
     def check(name):
         code, olds, src = clauses[name]
+        if any(w in src for w in PYVC_ONLY):
+            notes.append(f"{name}: not evaluable natively (ghost vocabulary)   [{src}]")
+            return
         e2 = dict(env)
         e2.update(olds)
         try:
             ok = eval(code, ns, e2)
         except Exception as e:
-            failures.append(f"{name}: clause raised {type(e).__name__}: {e}   [{src}]")
+            notes.append(f"{name}: not evaluable natively ({type(e).__name__}: {e})   [{src}]")
             return
         if not ok:
             failures.append(f"{name}: false   [{src}]")
@@ -222,7 +239,7 @@ def run(spec):
                 e2.update(olds)
                 env[n] = eval(code, ns, e2)
             except Exception as e:
-                failures.append(f"post_let {n}: raised {type(e).__name__}: {e}")
+                notes.append(f"post_let {n}: not evaluable natively ({type(e).__name__}: {e})")
         for name in clauses:
             if name.startswith(("returns", "post.", "assign.")):
                 check(name)
@@ -321,6 +338,18 @@ def resolve_target(qual, loc):
     return resolve(".".join(parts))
 
 
+def matches(obligation, failure):
+    """does this native failure witness the refuted obligation itself (and not some other clause)?"""
+    key = failure.split(":", 1)[0].strip()
+    tail = obligation.split("[")[0]
+    if key.startswith("noraise."):
+        return ".noraise." in tail and tail.rsplit(".noraise.", 1)[1].split(".")[-1] == key.split(".", 1)[1].split(".")[-1]
+    if key.startswith("raises."):
+        parts = key.split(".")
+        return ".raises." in tail and tail.endswith("." + parts[-1]) and parts[-2].split(".")[-1] in tail
+    return tail.endswith("." + key) or tail.endswith("." + key.split(".", 1)[-1]) and key.split(".")[0] in ("post", "assign", "frame") and ("." + key.split(".")[0] + ".") in tail
+
+
 def main():
     spec = json.load(open(sys.argv[1]))
     try:
@@ -330,11 +359,21 @@ def main():
         traceback.print_exc()
         print(f"REPLAY-ERROR {type(e).__name__}: {e}")
         return 5
-    if rc == 0:
+    ob = spec.get("obligation") or ""
+    mine = [f for f in failures if matches(ob, f)]
+    if rc == 0 and mine:
         print(f"REPLAY-CONFIRMED target={spec['target']} obligation={spec.get('obligation')}")
-        for f in failures:
+        for f in mine:
             print("   FAILS", f)
+        for f in failures:
+            if f not in mine:
+                print("   (also)", f)
     else:
+        rc = 4 if rc == 0 else rc
+        for f in failures:
+            print("   (other clause fails natively)", f)
+        for f in notes:
+            print("   (note)", f)
         print(f"REPLAY-NOT-CONFIRMED target={spec['target']} obligation={spec.get('obligation')} (executable contract holds on the concretised input)")
     return rc
 
